@@ -28,6 +28,8 @@
 //   - c26_authz_helpers: for checkAuthz / checkWriteAuthz / checkCreateStoreAuthz /
 //     getAccessibleStores the ordered calls made on s.authorizer and whether the body starts with
 //     the SkipAuthzCheckFromContext short-cut;
+//   - c26_list_stores_empty_guard: ListStores answers an empty non-nil accessible list itself,
+//     before the query is built;
 //   - c26_unknown: shapes of authz.go that were not recognised (must be empty).
 //
 // Fail closed: every unrecognised shape becomes a CUnknown / c26_unknown entry, which makes the
@@ -873,6 +875,38 @@ func main() {
 		helpers = append(helpers, h)
 	}
 
+	// ---- ListStores: `if storeIDs != nil && len(storeIDs) == 0 { return <resp>, nil }` between the
+	// getAccessibleStores statement and the first statement that mentions the datastore
+	emptyGuard := false
+	if fd := allMethods["ListStores"]; fd != nil {
+		accIdx, guardIdx, dataIdx := -1, -1, -1
+		accVar := ""
+		rn := recvName(fd)
+		for i, st := range fd.Body.List {
+			if as, ok := st.(*ast.AssignStmt); ok && len(as.Rhs) == 1 && len(as.Lhs) == 2 {
+				if c, ok := as.Rhs[0].(*ast.CallExpr); ok && src(c.Fun) == rn+".getAccessibleStores" && accIdx < 0 {
+					if id, ok := as.Lhs[0].(*ast.Ident); ok {
+						accIdx, accVar = i, id.Name
+					}
+					continue
+				}
+			}
+			if ifs, ok := st.(*ast.IfStmt); ok && accVar != "" && guardIdx < 0 && ifs.Init == nil && ifs.Else == nil &&
+				src(ifs.Cond) == accVar+" != nil && len("+accVar+") == 0" && len(ifs.Body.List) == 1 {
+				if ret, ok := ifs.Body.List[0].(*ast.ReturnStmt); ok && len(ret.Results) == 2 {
+					if id, ok := ret.Results[1].(*ast.Ident); ok && id.Name == "nil" && !strings.Contains(src(ret.Results[0]), rn+".datastore") {
+						guardIdx = i
+						continue
+					}
+				}
+			}
+			if dataIdx < 0 && strings.Contains(src(st), rn+".datastore") {
+				dataIdx = i
+			}
+		}
+		emptyGuard = accIdx >= 0 && guardIdx > accIdx && (dataIdx < 0 || guardIdx < dataIdx)
+	}
+
 	// ---- emit
 	var b strings.Builder
 	b.WriteString("(* GENERATED by harness/cmd/gen_c26 from the Go source of /repo on every bin/check run.\n   Do not edit: the file is overwritten. *)\n")
@@ -978,6 +1012,8 @@ func main() {
 	}
 	b.WriteString("].\n\n")
 
+	b.WriteString("(* stores.go ListStores: an empty non-nil accessible list is answered with an empty page before\n   the query is built (fix c075cf0) *)\n")
+	fmt.Fprintf(&b, "Definition c26_list_stores_empty_guard : bool := %v.\n\n", emptyGuard)
 	b.WriteString("(* shapes of authz.go / apimethod that this tool did not recognise *)\nDefinition c26_unknown : list string :=\n  [")
 	for i, u := range unknown {
 		if i > 0 {
